@@ -60,8 +60,15 @@ class Stats:
         self.bound = None
         self.wall = 0.0
         self.max_threads = 0
+        self.counters = {}
+        self.maxima = {}
 
     def merge(self, o):
+        for k, v in o.counters.items():
+            self.counters[k] = self.counters.get(k, 0) + v
+        for k, v in o.maxima.items():
+            if v > self.maxima.get(k, -1):
+                self.maxima[k] = v
         self.executions += o.executions
         self.states += o.states
         self.transitions += o.transitions
@@ -119,6 +126,17 @@ def explore(run_one, bound, forced_cost=0, max_execs=None, seed=0,
         st.states += max(nd - len(prefix), 0) + (1 if not prefix else 0)
         if x.signature is not None:
             st.signatures[x.signature] = st.signatures.get(x.signature, 0) + 1
+        for k in ('inject_effective', 'inject_ran', 'n_injected'):
+            if x.extra.get(k):
+                st.counters[k] = st.counters.get(k, 0) + 1
+        for k, v in (x.extra.get('user') or {}).items():
+            if isinstance(v, (int, float)):
+                if v > st.maxima.get(k, -1):
+                    st.maxima[k] = v
+            elif isinstance(v, dict):
+                for kk, vv in v.items():
+                    if vv > st.maxima.get(f'{k}.{kk}', -1):
+                        st.maxima[f'{k}.{kk}'] = vv
         if x.extra.get('max_threads', 0) > st.max_threads:
             st.max_threads = x.extra['max_threads']
         if len(st.samples) < keep_samples and x.sample is not None:
@@ -158,9 +176,17 @@ def explore(run_one, bound, forced_cost=0, max_execs=None, seed=0,
 # parallel fan-out of independent jobs
 # ---------------------------------------------------------------------------
 
+class JobError(Exception):
+    pass
+
+
 def _job_runner(args):
     fn, job = args
-    return fn(job)
+    try:
+        return fn(job)
+    except BaseException as e:  # noqa  - never let a worker die silently (the pool would hang)
+        import traceback
+        return JobError(f'{type(e).__name__}: {e}\n{traceback.format_exc()[-2500:]} job={str(job)[:300]}')
 
 
 def run_jobs(fn, jobs, nproc=None, chunksize=1):
@@ -176,7 +202,11 @@ def run_jobs(fn, jobs, nproc=None, chunksize=1):
         return [fn(j) for j in jobs]
     ctx = mp.get_context('fork')
     with ctx.Pool(min(nproc, len(jobs))) as pool:
-        return pool.map(_job_runner, [(fn, j) for j in jobs], chunksize)
+        res = pool.map(_job_runner, [(fn, j) for j in jobs], chunksize)
+    for r in res:
+        if isinstance(r, JobError):
+            raise r
+    return res
 
 
 def sig_hash(obj):
